@@ -56,6 +56,7 @@ func c16Roundtrip(c *core.Ctx, k *core.Case) {
 	c.Eval(1)
 	want := pcoRef(units)
 	got := p.Marshal()
+	c.Hold(k, "nasConvert.ProtocolConfigurationOptions.Marshal", got)
 	if len(got) == 0 || got[0] != 0x80 {
 		c.Fail(k, "pco-first-octet", fmt.Sprintf("Marshal starts with %x, want 80", got))
 		return
